@@ -1,6 +1,6 @@
 (** C08 — across operations: inputs locked by lock_outputs are not selected again. *)
 From V.Lib Require Import Base.
-From V.C08 Require Import Sql Model ModelT Spec ProofsSql ProofsSel ProofsProp ProofsGreedy ProofsAnchor.
+From V.C08 Require Import Sql Model ModelT ModelP Spec ProofsSql ProofsSel ProofsProp ProofsT ProofsGreedy ProofsAnchor.
 From Coq Require Import ZifyBool.
 Local Open Scope Z_scope.
 
@@ -23,26 +23,54 @@ Qed.
 (** The same for whole proposals: a later proposal (any request, any change strategy, ordinary or
     canonical attempt) made while the locks are in force and not naming the owner shares no input
     with the locked ones. *)
-Theorem locked_proposal_not_reused change fuel tip owner expiry refs db db' e tip' acct pay sp oo permitted pol lp lock canon steps s x :
-  NoDup (rrefs db) -> 1 <= p_trusted pol -> p_trusted pol <= p_untrusted pol ->
+Theorem locked_proposal_not_reused change fuel tip owner expiry refs db db' udb e tip' acct pay sp oo permitted pol zc lp tspend lock canon steps s x :
+  NoDup (rrefs db) -> NoDup (map u_id udb) -> 1 <= p_trusted pol -> p_trusted pol <= p_untrusted pol ->
   (forall ci, canon = Some ci -> 0 < c_interval ci) ->
   (forall ci sa, canon = Some ci -> c_sel_anchor ci = Some sa -> sa <= c_boundary ci) ->
   lock_outputs tip owner expiry refs db = Some db' ->
   e_target e <= expiry -> ~ In owner (overridable (LFPolicy lp)) ->
-  propose_transfer change fuel db' e tip' acct pay sp oo permitted pol lp lock canon = Ok steps ->
+  propose_transfer change fuel db' udb e tip' acct pay sp oo permitted pol zc lp tspend lock canon = Ok steps ->
   In s steps -> In x (s_inputs s) -> ~ In x refs.
 Proof.
-  intros Hn Ht Hu Hci Hsa HL Hx Ho HP Hs Hxin Hr.
+  intros Hn Hnu Ht Hu Hci Hsa HL Hx Ho HP Hs Hxin Hr.
   destruct (lock_outputs_holds _ _ _ _ _ _ Hn HL) as [Hrefs Hheld].
   assert (Hn' : NoDup (rrefs db')) by (rewrite Hrefs; exact Hn).
-  destruct (proposal_inputs_at_step_anchor _ _ _ _ _ _ _ _ _ _ _ _ _ _ _ Hn' Ht Hu Hci Hsa HP) as [_ Hok].
-  destruct (Hok s Hs) as [a [inputs [_ [Hi [_ [_ [_ [_ [_ Hrows]]]]]]]]].
+  destruct (proposal_inputs_at_step_anchor _ _ _ _ _ _ _ _ _ _ _ _ _ _ _ _ _ _ Hn' Hnu Ht Hu Hci Hsa HP) as [_ Hok].
+  destruct (Hok s Hs) as [a [inputs [tins [_ [Hi [_ [_ [_ [_ [_ [_ [Hrows _]]]]]]]]]]]].
   rewrite Hi in Hxin. apply in_rrefs in Hxin. destruct Hxin as [r [Hrin ->]].
   destruct (Hrows r Hrin) as [Hdb [_ [_ [_ [_ [_ Hb]]]]]].
   destruct (Hheld _ r Hr Hdb (proj2 (same_ref_eq _ r) eq_refl)) as [H1 H2].
   unfold not_locked_by_other in Hb. rewrite H1, H2 in Hb.
   apply orb_true_iff in Hb. destruct Hb as [Hb|Hb]; [lia|].
   apply existsb_exists in Hb. destruct Hb as [y [Hy He]]. apply Ho. replace owner with y by lia. exact Hy.
+Qed.
+
+(** Transparent inputs of a transfer: a coin carrying a live lock of an owner the call's policy does
+    not name is in no step — in the first gather and in the re-gather alike. *)
+Theorem locked_utxo_not_reused change fuel db udb e tip acct pay sp oo permitted pol zc lp tspend lock canon steps s u x :
+  NoDup (rrefs db) -> NoDup (map u_id udb) -> 1 <= p_trusted pol -> p_trusted pol <= p_untrusted pol ->
+  (forall ci, canon = Some ci -> 0 < c_interval ci) ->
+  (forall ci sa, canon = Some ci -> c_sel_anchor ci = Some sa -> sa <= c_boundary ci) ->
+  In u udb -> u_lock u = Some x -> e_target e <= x ->
+  (forall o, u_owner u = Some o -> ~ In o (overridable (LFPolicy lp))) ->
+  propose_transfer change fuel db udb e tip acct pay sp oo permitted pol zc lp tspend lock canon = Ok steps ->
+  In s steps -> ~ In (u_id u) (s_tins s).
+Proof.
+  intros Hn Hnu Ht Hu Hci Hsa Hin Hl Hx Ho HP Hs Hid.
+  destruct (proposal_inputs_at_step_anchor _ _ _ _ _ _ _ _ _ _ _ _ _ _ _ _ _ _ Hn Hnu Ht Hu Hci Hsa HP) as [_ Hok].
+  destruct (Hok s Hs) as [a [inputs [tins [_ [_ [_ [Hti [_ [_ [_ [_ [_ Htrows]]]]]]]]]]]].
+  rewrite Hti in Hid. apply in_map_iff in Hid. destruct Hid as [u' [Eid Hu']].
+  destruct (Htrows u' Hu') as [Hdb' [allow [_ Hsp]]].
+  assert (u' = u).
+  { clear - Hnu Hin Hdb' Eid. induction udb as [|y t IH]; [contradiction|]. cbn in Hnu. inversion Hnu as [|? ? Hy Hnt]; subst.
+    destruct Hin as [->|Hin], Hdb' as [->|Hdb']; [reflexivity | | | apply IH; assumption].
+    - exfalso. apply Hy. apply in_map_iff. exists u'. split; [exact Eid | exact Hdb'].
+    - exfalso. apply Hy. apply in_map_iff. exists u. split; [symmetry; exact Eid | exact Hin]. }
+  subst u'. unfold utxo_spendable_acct, utxo_core in Hsp. rewrite !andb_true_iff in Hsp.
+  destruct Hsp as [_ [[_ Hlk] _]]. unfold utxo_not_locked_by_other in Hlk. rewrite Hl in Hlk.
+  apply orb_true_iff in Hlk. destruct Hlk as [Hlk|Hlk]; [lia|].
+  destruct (u_owner u) as [o|]; [|discriminate].
+  apply existsb_exists in Hlk. destruct Hlk as [y [Hy He]]. apply (Ho o eq_refl). replace o with y by lia. exact Hy.
 Qed.
 
 (** ** store_transactions_to_be_sent: unlock_spent_notes releases exactly the locks of the outputs
